@@ -17,7 +17,8 @@ def _req(role, i, origin, d, body, close=False):
     elif role == 'web':
         head = (b'POST' if body else b'GET') + b' /' + origin + p + b' HTTP/1.1\r\nHost: x\r\n'
     else:
-        head = (b'POST' if body else b'GET') + (b' /get' if origin == b'up1.example' else (b' /lit' if origin == b'literal' else b' /api/x')) + b' HTTP/1.1\r\nHost: x\r\nX-I: ' + (b'%d' % i) + B(d) + b'\r\n'
+        rp = {b'up1.example': b' /get', b'literal': b' /lit', b'same.example:9001': b' /p1', b'same.example:9002': b' /p2'}.get(origin, b' /api/x')
+        head = (b'POST' if body else b'GET') + rp + b' HTTP/1.1\r\nHost: x\r\nX-I: ' + (b'%d' % i) + B(d) + b'\r\n'
     if body:
         head = head + b'Content-Length: 2\r\n'
     if close:
@@ -93,6 +94,8 @@ def persistent(d0: int, d1: int, d2: int, order: int) -> bool:
         cs = xk.accept('client')
 
         def factory(addr):
+            if addr[0] == 'same.example':
+                return env.sock('up:%s:%d' % (addr[0], addr[1]))       # two upstreams on one host: told apart by port
             return env.sock('up:' + addr[0])
         env.upstream_factory = factory
     ex = xk.ex
@@ -180,7 +183,7 @@ def persistent(d0: int, d1: int, d2: int, order: int) -> bool:
         if role == 'forward':
             want_path = b'/r%d' % i + B(ds[i])
         else:
-            want_path = b'/get' if origin == b'up1.example' else (b'/lit' if origin == b'literal' else b'/v1')
+            want_path = {b'up1.example': b'/get', b'literal': b'/lit', b'same.example:9001': b'/one', b'same.example:9002': b'/two'}.get(origin, b'/v1')
         body = resp[i]['body']
         xo = [v for k, nm, v in resp[i]['headers'] if k == b'x-origin']
         if len(xo) != 1 or not xo[0].startswith(origin + b'#'):
@@ -249,6 +252,10 @@ def obligations(tier):
                 if n == 1 and packing == 'together':
                     continue
                 add('%s.n%d.close_last.%s' % (role, n, packing), role=role, n=n, origins=[same] * n, packing=packing, close_last=True)
+    # reverse proxy, two routes to the SAME host on different ports; the client waits for each answer (so that the open finding about
+    # an outstanding response on a replaced upstream connection is not involved): each request is answered by the port its route names
+    add('reverse.n2.same_host_other_port.client_waits.separate', role='reverse', n=2, origins=['same.example:9001', 'same.example:9002'],
+        packing='separate', waits=True)
     add('web.n2.unrouted.separate', role='web', n=2, origins=['hello', 'none'], packing='separate')
     add('web.n2.unrouted.together', role='web', n=2, origins=['hello', 'none'], packing='together')
     for ol, tag in ((['up1.example', 'literal'], 'upstream_then_literal'), (['literal', 'up1.example'], 'literal_then_upstream'),
